@@ -79,6 +79,74 @@ func (p *vf17Packetizer) unit(payload []byte, last bool) *unit.Unit {
 	return u
 }
 
+// vf17VideoDesc: H264 and H265 (and G711) in payload mode: both unit remuxers are on the path.
+func vf17VideoDesc(n int) *description.Session {
+	fs := []format.Format{
+		&format.H264{PayloadTyp: 96, PacketizationMode: 1},
+		&format.H265{PayloadTyp: 97},
+		&format.G711{PayloadTyp: 0, MULaw: true, SampleRate: 8000, ChannelCount: 1},
+	}[:n]
+	d := &description.Session{}
+	for i, f := range fs {
+		typ := description.MediaTypeVideo
+		if i == 2 {
+			typ = description.MediaTypeAudio
+		}
+		d.Medias = append(d.Medias, &description.Media{Type: typ, Formats: []format.Format{f}})
+	}
+	return d
+}
+
+// vf17VideoPayload builds an access unit of format fi (0: H264, 1: H265) around the tag b.
+//
+//	frame: one slice NAL carrying the tag                      (nothing to strip, nothing to inject)
+//	aud:   delimiter + two slice NALs                          (the delimiter is stripped)
+//	key:   in-band parameter sets + IDR                        (the sets are stripped, the current ones injected)
+func vf17VideoPayload(fi int, kind string, b []byte) unit.Payload {
+	nal := func(h264 byte, h265 byte, extra byte) []byte {
+		if fi == 0 {
+			return append([]byte{h264, extra}, b...)
+		}
+		return append([]byte{h265 << 1, 1, extra}, b...)
+	}
+	var au [][]byte
+	switch kind {
+	case "aud":
+		au = [][]byte{nal(0x09, 35, 0xf0), nal(0x41, 1, 1), nal(0x41, 1, 2)}
+	case "key":
+		if fi == 0 {
+			au = [][]byte{{0x67, 0x64, 0x00, 0x1f, b[4], b[5]}, {0x68, 0xee, 0x3c, 0x80, b[5]}, nal(0x65, 19, 3)}
+		} else {
+			au = [][]byte{{0x40, 1, 0x0c, b[5]}, {0x42, 1, 0x01, b[4], b[5]}, {0x44, 1, 0xc1, b[5]}, nal(0x65, 19, 3)}
+		}
+	default:
+		au = [][]byte{nal(0x41, 1, 0)}
+	}
+	if fi == 0 {
+		return unit.PayloadH264(au)
+	}
+	return unit.PayloadH265(au)
+}
+
+// vf17Content is a deep copy of what a unit carries right now: NAL lists as len, bytes, len, bytes, ...
+func vf17Content(u *unit.Unit, rtpMode bool) []int {
+	var nals [][]byte
+	switch v := u.Payload.(type) {
+	case unit.PayloadH264:
+		nals = v
+	case unit.PayloadH265:
+		nals = v
+	default:
+		return vf17Ints(vf17UnitBytes(u, rtpMode))
+	}
+	out := []int{}
+	for _, n := range nals {
+		out = append(out, len(n))
+		out = append(out, vf17Ints(n)...)
+	}
+	return out
+}
+
 // vf17UnitBytes: the bytes that identify a delivered unit: the payload, or (RTP publisher) the packet's bytes.
 func vf17UnitBytes(u *unit.Unit, rtpMode bool) []byte {
 	if rtpMode {
@@ -175,16 +243,24 @@ type vf17Act struct {
 }
 
 type vf17Case struct {
-	Run  int       `json:"run"`
-	Q    int       `json:"q"`
-	Src  string    `json:"src"`
-	RTP  bool      `json:"rtp"` // replay with a publisher that writes RTP packets
-	Acts []vf17Act `json:"acts"`
+	Run   int       `json:"run"`
+	Q     int       `json:"q"`
+	Src   string    `json:"src"`
+	RTP   bool      `json:"rtp"`   // replay with a publisher that writes RTP packets
+	Video bool      `json:"video"` // replay with H264 / H265 formats in payload mode (unit kinds frame / aud / key)
+	Acts  []vf17Act `json:"acts"`
 }
 
 type vf17Cb struct {
 	R   string `json:"r"`
 	F   string `json:"f"`
+	Pay []int  `json:"pay"`
+	W   int    `json:"w"` // number (1-based) of the Write step whose unit object this is; 0 = unknown object
+}
+
+type vf17Rel struct {
+	R   string `json:"r"`
+	W   int    `json:"w"`
 	Pay []int  `json:"pay"`
 }
 
@@ -193,7 +269,9 @@ type vf17Step struct {
 	Skipped bool            `json:"skipped"`
 	Cur     bool            `json:"cur"`
 	Pay     []int           `json:"pay"`
+	RPay    []int           `json:"rpay"`
 	Cbs     []vf17Cb        `json:"cbs"`
+	Rels    []vf17Rel       `json:"rels"`
 	Disc    map[string]int  `json:"disc"`
 	InCb    map[string]bool `json:"incb"`
 	Ret     map[string]bool `json:"ret"`
@@ -205,6 +283,7 @@ type vf17Trace struct {
 	AA    bool       `json:"aa"`
 	One   bool       `json:"oneMedia"`
 	RTP   bool       `json:"rtp"`
+	Video bool       `json:"video"`
 	Src   string     `json:"src"`
 	Steps []vf17Step `json:"steps"`
 }
@@ -214,6 +293,8 @@ var vf17Readers = []string{"r1", "r2"}
 type vf17Replay struct {
 	rtp     bool
 	mu      sync.Mutex
+	stepOf  map[*unit.Unit]int
+	rels    []vf17Rel
 	pending []vf17Cb
 	started map[string]int
 	ended   map[string]int
@@ -224,14 +305,19 @@ type vf17Replay struct {
 
 func (h *vf17Replay) cb(r string, f string) OnDataFunc {
 	return func(u *unit.Unit) error {
-		pay := vf17Ints(vf17UnitBytes(u, h.rtp))
+		pay := vf17Content(u, h.rtp)
 		h.mu.Lock()
-		h.pending = append(h.pending, vf17Cb{R: r, F: f, Pay: pay})
+		w := h.stepOf[u]
+		h.pending = append(h.pending, vf17Cb{R: r, F: f, Pay: pay, W: w})
 		h.started[r]++
 		g := h.gate[r]
 		h.mu.Unlock()
-		res := <-g // the harness decides when (and how) this callback returns
+		res := <-g                     // the harness decides when (and how) this callback returns
+		again := vf17Content(u, h.rtp) // the reader still has the unit: what does it carry now ?
 		h.mu.Lock()
+		if w != 0 {
+			h.rels = append(h.rels, vf17Rel{R: r, W: w, Pay: again})
+		}
 		h.ended[r]++
 		h.mu.Unlock()
 		return res
@@ -250,9 +336,14 @@ func (h *vf17Replay) observe(st *vf17Step) {
 	h.mu.Lock()
 	st.Cbs = h.pending
 	h.pending = nil
+	st.Rels = h.rels
+	h.rels = nil
 	h.mu.Unlock()
 	if st.Cbs == nil {
 		st.Cbs = []vf17Cb{}
+	}
+	if st.Rels == nil {
+		st.Rels = []vf17Rel{}
 	}
 	st.Disc = map[string]int{}
 	st.InCb = map[string]bool{}
@@ -283,12 +374,14 @@ func vf17RunCase(t *testing.T, c *vf17Case, tr *vf17Trace) {
 	}
 	tr.Run, tr.Q, tr.Src = c.Run, c.Q, c.Src
 	tr.RTP = c.RTP && !hasSwitch
-	tr.AA = !tr.RTP && (hasSwitch || c.Run%3 == 2)
-	tr.One = !tr.AA && !tr.RTP && c.Run%3 == 1
+	tr.Video = c.Video && !hasSwitch && !tr.RTP
+	tr.AA = !tr.RTP && !tr.Video && (hasSwitch || c.Run%3 == 2)
+	tr.One = !tr.AA && !tr.RTP && !tr.Video && c.Run%3 == 1
 	tr.Steps = []vf17Step{}
 
 	h := &vf17Replay{
 		rtp:     tr.RTP,
+		stepOf:  map[*unit.Unit]int{},
 		started: map[string]int{}, ended: map[string]int{},
 		gate: map[string]chan error{}, reader: map[string]*Reader{}, done: map[string]chan struct{}{},
 	}
@@ -300,6 +393,8 @@ func vf17RunCase(t *testing.T, c *vf17Case, tr *vf17Trace) {
 		strm.ReplaceNTP = true
 	} else if tr.RTP {
 		strm.OrigDesc = vf17RTPDesc(2)
+	} else if tr.Video {
+		strm.OrigDesc = vf17VideoDesc(2)
 	} else {
 		strm.OrigDesc = vf17Desc(2, tr.One)
 	}
@@ -325,8 +420,8 @@ func vf17RunCase(t *testing.T, c *vf17Case, tr *vf17Trace) {
 	newSub()
 
 	seq := 0
-	for _, a := range c.Acts {
-		st := vf17Step{vf17Act: a, Pay: []int{}}
+	for ai, a := range c.Acts {
+		st := vf17Step{vf17Act: a, Pay: []int{}, RPay: []int{}}
 		if st.S == nil {
 			st.S = []string{}
 		}
@@ -341,22 +436,32 @@ func vf17RunCase(t *testing.T, c *vf17Case, tr *vf17Trace) {
 				st.Skipped = true // only an RTP publisher's video frames span several units
 				break
 			}
+			if (a.K == "key" || a.K == "aud") && !tr.Video {
+				st.Skipped = true // only video payloads have something to strip or inject
+				break
+			}
 			seq++
 			b := []byte{0xC1, 0x17, byte(fi), byte(a.SS), byte(seq >> 8), byte(seq), byte(^seq), 0x5A}
 			if tr.RTP {
 				b[0] = 0x41 // H264: a single NAL unit (non-IDR slice) per packet
 			}
-			st.Pay = vf17Ints(b)
 			st.Cur = a.SS == len(subs)
 			mf := subMF[a.SS-1][fi]
-			if tr.RTP {
-				subs[a.SS-1].WriteUnit(mf.m, mf.f, pk[fi].unit(append([]byte(nil), b...), a.K != "frag"))
-				break
+			var u *unit.Unit
+			switch {
+			case tr.RTP:
+				u = pk[fi].unit(append([]byte(nil), b...), a.K != "frag")
+			case tr.Video:
+				u = &unit.Unit{PTS: int64(seq) * 3000, Payload: vf17VideoPayload(fi, a.K, b)}
+			default:
+				u = &unit.Unit{PTS: int64(seq) * 160, Payload: vf17Payload(fi, append([]byte(nil), b...))}
 			}
-			subs[a.SS-1].WriteUnit(mf.m, mf.f, &unit.Unit{
-				PTS:     int64(seq) * 160,
-				Payload: vf17Payload(fi, append([]byte(nil), b...)),
-			})
+			st.Pay = vf17Content(u, tr.RTP)
+			h.mu.Lock()
+			h.stepOf[u] = ai + 1
+			h.mu.Unlock()
+			subs[a.SS-1].WriteUnit(mf.m, mf.f, u)
+			st.RPay = vf17Content(u, tr.RTP) // WriteUnit remuxes the unit in place: its content as handed to the readers
 
 		case "AddReader":
 			if h.reader[a.R] != nil {
@@ -417,7 +522,7 @@ func vf17RunCase(t *testing.T, c *vf17Case, tr *vf17Trace) {
 	}
 
 	// let every callback that is still in progress (and those that follow) return
-	drain := vf17Step{vf17Act: vf17Act{A: "Drain", S: []string{}}, Pay: []int{}}
+	drain := vf17Step{vf17Act: vf17Act{A: "Drain", S: []string{}}, Pay: []int{}, RPay: []int{}}
 	all := []vf17Cb{}
 	for i := 0; i < 64; i++ {
 		released := false
@@ -492,6 +597,7 @@ type vf17Round struct {
 	AA       bool        `json:"aa"`
 	Foreign  bool        `json:"foreign"` // units of the built-in offline publisher may reach the readers
 	RTP      bool        `json:"rtp"`     // the publisher writes RTP packets; two of three units of f1 have no payload
+	Video    bool        `json:"video"`   // H264 / H265 payloads: the unit remuxers are on the path
 	NF       int         `json:"nf"`
 	Writes   [][]int64   `json:"writes"`   // uid -> [f, ss, ws, we, chk]
 	Switches [][]int64   `json:"switches"` // [ss, s, e]: ss became the current publisher between s and e
@@ -504,10 +610,12 @@ func vf17StressRound(t *testing.T, run int, seed uint64) *vf17Round {
 	rd.Q = []int{1, 2, 4, 8, 64}[rnd.IntN(5)]
 	// 0,1: plain   2: always-available, direct switch   3: always-available through the offline publisher
 	// 4: plain, the publisher writes RTP packets and the frames of f1 span three packets
-	mode := run % 5
+	// 5: plain, H264 / H265 / G711 in payload mode (both unit remuxers; every fifth unit has a delimiter to strip)
+	mode := run % 6
 	rd.AA = mode == 2 || mode == 3
 	rd.Foreign = mode == 3
 	rd.RTP = mode == 4
+	rd.Video = mode == 5
 	oneMedia := mode == 1
 	nPer := 120 + rnd.IntN(160)
 	nss := 1
@@ -523,6 +631,8 @@ func vf17StressRound(t *testing.T, run int, seed uint64) *vf17Round {
 		strm.ReplaceNTP = true
 	} else if rd.RTP {
 		strm.OrigDesc = vf17RTPDesc(rd.NF)
+	} else if rd.Video {
+		strm.OrigDesc = vf17VideoDesc(rd.NF)
 	} else {
 		strm.OrigDesc = vf17Desc(rd.NF, oneMedia)
 	}
@@ -571,6 +681,19 @@ func vf17StressRound(t *testing.T, run int, seed uint64) *vf17Round {
 			if rd.RTP {
 				b[0] = 0x41 // H264: one NAL unit per packet; a frame of f1 = three packets, marker on the third
 				u = pk.unit(b, f != 0 || i%3 == 2)
+			}
+			if rd.Video && f < 2 {
+				hdr := [][]byte{{0x41}, {0x02, 0x01}}[f] // a slice NAL of H264 / H265 that carries the tag
+				au := [][]byte{append(append([]byte{}, hdr...), b...)}
+				if i%5 == 4 {
+					aud := [][]byte{{0x09, 0xf0}, {0x46, 0x01}}[f]
+					au = [][]byte{aud, au[0]}
+				}
+				if f == 0 {
+					u.Payload = unit.PayloadH264(au)
+				} else {
+					u.Payload = unit.PayloadH265(au)
+				}
 			}
 			w[2] = clk.Add(1)
 			ss.WriteUnit(mf.m, mf.f, u)
@@ -624,6 +747,20 @@ func vf17StressRound(t *testing.T, run int, seed uint64) *vf17Round {
 				r.OnData(orig[ff-1].m, orig[ff-1].f, func(u *unit.Unit) error {
 					tstamp := clk.Add(1)
 					b := vf17UnitBytes(u, rd.RTP)
+					var vp unit.Payload
+					if rd.Video {
+						vp = u.Payload
+					}
+					switch v := vp.(type) { // video: the tag follows the header of the last NAL
+					case unit.PayloadH264:
+						if len(v) > 0 && len(v[len(v)-1]) > 1 {
+							b = v[len(v)-1][1:]
+						}
+					case unit.PayloadH265:
+						if len(v) > 0 && len(v[len(v)-1]) > 2 {
+							b = v[len(v)-1][2:]
+						}
+					}
 					uid, chk := 0, 0
 					if len(b) == 12 && (b[0] == 0xC1 || b[0] == 0x41) && b[1] == 0x17 && b[10] == 0x5A && b[11] == 0xA5 {
 						uid = int(b[2])<<24 | int(b[3])<<16 | int(b[4])<<8 | int(b[5])
